@@ -90,3 +90,26 @@ func Harness_C07_wedge_relation_values() {
 	vr.Assert("never WedgeEquals for distinct directions", rel != WedgeEquals)
 	vr.Reach("end")
 }
+
+// wedgeContainsSemiwedge (used by the loop/polygon boundary relations): the rays
+// immediately counter-clockwise (clockwise if reverse) of the edge (o, b2) lie inside
+// wedge A — including the shared-edge (b2 == a2) and reversed-shared-edge (b2 == a0) cases.
+func Harness_C07_semiwedge() {
+	vr.Domain("RUF")
+	vr.Stub("RobustSign", "vrstub_C07_RobustSign")
+	a0, a2, b0, _, o := vrDirections()
+	b2 := b0
+	switch vr.Choose("b2is", 0, 2) {
+	case 1:
+		b2 = a0
+	case 2:
+		b2 = a2
+	}
+	reverse := vr.Bool("reverse")
+	w := vrMod2Pi(vr.RSub(vrTheta(a0), vrTheta(a2)))
+	pos := vrMod2Pi(vr.RSub(vrTheta(b2), vrTheta(a2)))
+	// open set of rays just after pos (or just before it, if reverse) inside the open sweep (0, w)
+	want := vr.IteBool(reverse, vr.And(pos > 0, pos <= w), vr.And(pos >= 0, pos < w))
+	vr.Assert("wedgeContainsSemiwedge ⇔ the adjacent rays lie inside the wedge", wedgeContainsSemiwedge(a0, o, a2, b2, reverse) == want)
+	vr.Reach("end")
+}
